@@ -16,12 +16,17 @@ import (
 )
 
 func history(samples []string, upto int) string {
+	if len(samples) > 48 { // a size family: the case names the generator, show the ends
+		return fmt.Sprintf("history (applied %d of %d): %q ... %q", upto, len(samples), samples[:24], samples[len(samples)-8:])
+	}
 	return fmt.Sprintf("history (applied %d of %d): %q", upto, len(samples), samples)
 }
 
 // ------------------------------------------------------------------ counter
 
-func runCounter(samples []string) (res result) {
+func runCounter(samples []string) result { return runCounterAt(samples, everyPrefix) }
+
+func runCounterAt(samples []string, cp checkAt) (res result) {
 	where := "NewCounter"
 	var impl *aggregation.MatchCounter
 	ref := newRefCounter()
@@ -37,6 +42,9 @@ func runCounter(samples []string) (res result) {
 				if ref.sample(samples[i]) {
 					res.accepted++
 				}
+			}
+			if !cp.at(i+1, len(samples)) {
+				return nil
 			}
 			return checkCounter(impl, ref, &where, &res.state)
 		})
@@ -128,7 +136,9 @@ func checkCounter(impl *aggregation.MatchCounter, ref *refCounter, where *string
 
 // ------------------------------------------------------------------ sub-key counter
 
-func runSubKey(samples []string) (res result) {
+func runSubKey(samples []string) result { return runSubKeyAt(samples, everyPrefix) }
+
+func runSubKeyAt(samples []string, cp checkAt) (res result) {
 	where := "NewSubKeyCounter"
 	var impl *aggregation.SubKeyCounter
 	ref := newRefSubKey()
@@ -144,6 +154,9 @@ func runSubKey(samples []string) (res result) {
 				if ref.sample(samples[i]) {
 					res.accepted++
 				}
+			}
+			if !cp.at(i+1, len(samples)) {
+				return nil
 			}
 			return checkSubKey(impl, ref, &where, &res.state)
 		})
@@ -234,7 +247,11 @@ func checkSubKey(impl *aggregation.SubKeyCounter, ref *refSubKey, where *string,
 
 // ------------------------------------------------------------------ table
 
-func runTable(delim string, samples []string) (res result) {
+func runTable(delim string, samples []string) result {
+	return runTableAt(delim, samples, everyPrefix)
+}
+
+func runTableAt(delim string, samples []string, cp checkAt) (res result) {
 	where := "NewTable"
 	var impl *aggregation.TableAggregator
 	ref := newRefTable(delim)
@@ -258,6 +275,9 @@ func runTable(delim string, samples []string) (res result) {
 				if refDefect != nil {
 					refDefect.sample(samples[i])
 				}
+			}
+			if !cp.at(i+1, len(samples)) {
+				return nil
 			}
 			f := checkTable(impl, ref, &where, &res.state, true)
 			if f != nil && refDefect != nil && !strings.Contains(f.sig, "/panic/") {
